@@ -109,7 +109,10 @@ def _invert_table(tree):
 def _invert_fn(tree, repo):
     pairs, default = _invert_table(tree)
     variant = _variant("kernel_invert", tree, "InvertedBooleanCheckTransformer",
-                       ["leave_UnaryOperation", "report_new_comparison", "_invert_comparisons"], [], rewrite=_strip_cases)
+                       ["leave_UnaryOperation", "report_new_comparison", "_invert_comparisons", "leave_FormattedStringExpression"], [],
+                       rewrite=_strip_cases)
+    # (Repaired__3: with the leave_FormattedStringExpression of proposed_fixes/invert-boolean-check-fstring-field.diff, which only
+    #  adds a space inside an f-string replacement field: the expression-level kernel is the same)
     # module level: the transformer must be the one wired into the codemod
     wired = find_assign(tree, "InvertedBooleanCheck")
     if wired is None or "InvertedBooleanCheckTransformer" not in ast.dump(wired):
@@ -213,3 +216,15 @@ def _identity_fn(tree, repo):
 
 custom("kernel_identity", "src/core_codemods/literal_or_new_object_identity.py", _KPROPS, "identity_recognised", "bool", "true", _identity_fn,
        doc="LiteralOrNewObjectIdentityTransformer: which operands count as literal / new object; `is` -> `==` on the original node")
+
+
+# ---- str_concat_in_seq_literal ---------------------------------------------------------------------------
+def _str_concat_fn(tree, repo):
+    v = _variant("kernel_str_concat", tree, "StrConcatInSeqLiteral",
+                 ["leave_List", "leave_Tuple", "leave_Set", "process_node_elements", "_process_elements", "_flatten_concatenated_strings"], [])
+    return {"Pinned": "pinned_str_concat", "Repaired": "repaired_str_concat"}[v]
+
+
+custom("kernel_str_concat", "src/core_codemods/str_concat_in_seq_literal.py", _KPROPS, "str_concat_cfg_v", "str_concat_cfg",
+       "repaired_str_concat", _str_concat_fn,
+       doc="StrConcatInSeqLiteral: which displays are processed, from the elements of which node (original: pinned / updated: repaired)")
